@@ -28,6 +28,8 @@ import os
 
 CV = "sparse/numba_backend/_compressed/convert.py"
 CM = "sparse/numba_backend/_common.py"
+CC = "sparse/numba_backend/_coo/common.py"
+UM = "sparse/numba_backend/_umath.py"
 
 
 class Shape(Exception):
@@ -155,6 +157,88 @@ def _pad_sites(repo):
     return text, {"new_coords": ast.unparse(coords[0].value), "new_shape_elt": ast.unparse(comp[0].elt)}
 
 
+def _control_sites(repo):
+    """three statement-level facts:
+       roll      : `for sh, ax in zip(shift, axis, strict=True): coords[ax] += sh; coords[ax] %= a.shape[ax]`
+                   (a sequential fold over the (shift, axis) pairs: pairs naming the same axis accumulate)
+       moveaxis  : both normalize_axis assignments come BEFORE the repeated-destination test
+       broadcast_to : `sorted = all(d == 1 for d in diff_nonbroadcast_idx)`"""
+    out, rep = [], {}
+    # --- roll
+    try:
+        with open(os.path.join(repo, CC)) as f:
+            fn = _func(ast.parse(f.read()), "roll")
+        loops = [n for n in ast.walk(fn) if isinstance(n, ast.For)]
+        if len(loops) != 1:
+            raise Shape(f"roll has {len(loops)} for-loops, expected the one over (shift, axis)")
+        lp = loops[0]
+        if ast.unparse(lp.target) != "(sh, ax)" or ast.unparse(lp.iter) != "zip(shift, axis, strict=True)":
+            raise Shape(f"roll's loop header changed: for {ast.unparse(lp.target)} in {ast.unparse(lp.iter)}")
+        body = [ast.unparse(b) for b in lp.body]
+        if body != ["coords[ax] += sh", "coords[ax] %= a.shape[ax]"]:
+            raise Shape(f"roll's loop body changed: {body}")
+        out.append("(* _coo/common.roll: for sh, ax in zip(shift, axis, strict=True): coords[ax] += sh; coords[ax] %= a.shape[ax] *)\n"
+                   "Definition s_roll_step (c sh n : Z) : Z := (c + sh) mod n.\n")
+        rep["s_roll_step"] = {"status": "ok"}
+    except (Shape, OSError, SyntaxError) as ex:
+        out.append(f"(* s_roll_step: EXTRACTION FAILED: {ex}\n   FALLBACK text follows (not extracted from the current source) *)\n"
+                   "Definition s_roll_step (c sh n : Z) : Z := (c + sh) mod n.\n")
+        rep["s_roll_step"] = {"status": "failed", "error": str(ex)}
+    # --- moveaxis
+    try:
+        with open(os.path.join(repo, CM)) as f:
+            fn = _func(ast.parse(f.read()), "moveaxis")
+        idx = {}
+        for k, st in enumerate(fn.body):
+            t = ast.unparse(st)
+            if t == "source = normalize_axis(source, a.ndim)":
+                idx["ns"] = k
+            elif t == "destination = normalize_axis(destination, a.ndim)":
+                idx["nd"] = k
+            elif isinstance(st, ast.If) and ast.unparse(st.test) == "len(set(destination)) < len(destination)":
+                idx["rep"] = k
+            elif isinstance(st, ast.If) and ast.unparse(st.test) == "len(source) != len(destination)":
+                idx["len"] = k
+        if set(idx) != {"ns", "nd", "rep", "len"}:
+            raise Shape(f"moveaxis: statements not found ({sorted(idx)})")
+        first = idx["ns"] < idx["rep"] and idx["nd"] < idx["rep"]
+        if not first and not (idx["rep"] < idx["ns"] and idx["rep"] < idx["nd"]):
+            raise Shape("moveaxis: normalisation and repeat test interleaved")
+        out.append(f"(* _common.moveaxis: normalize_axis(source/destination) at statements {idx['ns']}, {idx['nd']}; "
+                   f"repeated-destination test at {idx['rep']} *)\n"
+                   f"Definition s_moveaxis_normalize_first : bool := {'true' if first else 'false'}.\n")
+        rep["s_moveaxis_normalize_first"] = {"status": "ok", "value": first}
+    except (Shape, OSError, SyntaxError) as ex:
+        out.append(f"(* s_moveaxis_normalize_first: EXTRACTION FAILED: {ex}; FALLBACK *)\n"
+                   "Definition s_moveaxis_normalize_first : bool := true.\n")
+        rep["s_moveaxis_normalize_first"] = {"status": "failed", "error": str(ex)}
+    # --- broadcast_to
+    try:
+        with open(os.path.join(repo, UM)) as f:
+            fn = _func(ast.parse(f.read()), "broadcast_to")
+        asg = [n for n in ast.walk(fn) if isinstance(n, ast.Assign) and ast.unparse(n.targets[0]) == "sorted"]
+        if len(asg) != 1:
+            raise Shape("broadcast_to: assignment to `sorted` not found")
+        t = ast.unparse(asg[0].value)
+        if t == "all((d == 1 for d in diff_nonbroadcast_idx))":
+            q = True
+        elif t == "any((d == 1 for d in diff_nonbroadcast_idx))":
+            q = False
+        else:
+            raise Shape(f"broadcast_to: sorted = {t}")
+        ctor = [n for n in ast.walk(fn) if isinstance(n, ast.Call) and ast.unparse(n.func) == "COO"]
+        if len(ctor) != 1 or "sorted=sorted" not in ast.unparse(ctor[0]):
+            raise Shape("broadcast_to: the COO(...) call no longer passes sorted=sorted")
+        out.append(f"(* _umath.broadcast_to: sorted = {t} *)\n"
+                   f"Definition s_broadcast_sorted_all : bool := {'true' if q else 'false'}.\n")
+        rep["s_broadcast_sorted_all"] = {"status": "ok", "value": q}
+    except (Shape, OSError, SyntaxError) as ex:
+        out.append(f"(* s_broadcast_sorted_all: EXTRACTION FAILED: {ex}; FALLBACK *)\n"
+                   "Definition s_broadcast_sorted_all : bool := true.\n")
+        rep["s_broadcast_sorted_all"] = {"status": "failed", "error": str(ex)}
+    return "\n".join(out), rep
+
+
 def generate(repo):
     with open(os.path.join(repo, CV)) as f:
         src = f.read()
@@ -186,6 +270,9 @@ def generate(repo):
                      "Definition s_pad_coord (c before : Z) : Z := (c + before).\n\n"
                      "Definition s_pad_extent (d before after : Z) : Z := ((d + before) + after).\n")
         rep["s_pad_coord"] = {"status": "failed", "error": str(ex)}
+    t, r = _control_sites(repo)
+    parts.append(t)
+    rep.update(r)
     body = "\n".join(parts)
     digest = hashlib.sha256(body.encode()).hexdigest()[:16]
     text = (f"(* Gen/S_shapeops.v — GENERATED by tools/sitegen/shapeops.py from {CV} and {CM}.\n"
